@@ -77,8 +77,7 @@ func GenWorld(r *rand.Rand, tmp string, prefix string, o WorldOpts) (*World, err
 			s, err = BuildSeg(GenBatch(r, sch, n, fmt.Sprintf("%s.b%d", prefix, i), DocOpts{Repeat: r.Intn(3) > 0}), mode)
 		}
 		if err != nil {
-			w.Close()
-			return nil, err
+			return w.partial(), err
 		}
 		bases = append(bases, s)
 		w.Segs = append(w.Segs, s)
@@ -88,16 +87,14 @@ func GenWorld(r *rand.Rand, tmp string, prefix string, o WorldOpts) (*World, err
 		if r.Intn(2) == 0 || i == 0 {
 			t, err := b.Reload(tmp, false)
 			if err != nil {
-				w.Close()
-				return nil, err
+				return w.partial(), err
 			}
 			w.Segs = append(w.Segs, t)
 		}
 		if !o.NoFile && (r.Intn(3) == 0 || i == 1) {
 			t, err := b.Reload(tmp, true)
 			if err != nil {
-				w.Close()
-				return nil, err
+				return w.partial(), err
 			}
 			w.Segs = append(w.Segs, t)
 		}
@@ -127,8 +124,7 @@ func GenWorld(r *rand.Rand, tmp string, prefix string, o WorldOpts) (*World, err
 		}
 		ms, _, err := MergeSegs(ins, drops, mode)
 		if err != nil {
-			w.Close()
-			return nil, err
+			return w.partial(), err
 		}
 		merged = append(merged, ms)
 		w.Segs = append(w.Segs, ms)
@@ -149,15 +145,13 @@ func GenWorld(r *rand.Rand, tmp string, prefix string, o WorldOpts) (*World, err
 		}
 		ms, _, err := MergeSegs(ins, drops, mode)
 		if err != nil {
-			w.Close()
-			return nil, err
+			return w.partial(), err
 		}
 		w.Segs = append(w.Segs, ms)
 		if !o.NoFile && r.Intn(2) == 0 {
 			t, err := ms.Reload(tmp, true)
 			if err != nil {
-				w.Close()
-				return nil, err
+				return w.partial(), err
 			}
 			w.Segs = append(w.Segs, t)
 		}
@@ -166,6 +160,16 @@ func GenWorld(r *rand.Rand, tmp string, prefix string, o WorldOpts) (*World, err
 		s.X.Index() // models are read-only afterwards (safe to share between goroutines)
 	}
 	return w, nil
+}
+
+// partial prepares the segments built so far for use after a later construction step failed: the
+// reader-side checks still examine them (their models are complete), while the failure itself is
+// reported as a note by the caller (it is C01/C02/C04's business).
+func (w *World) partial() *World {
+	for _, s := range w.Segs {
+		s.X.Index()
+	}
+	return w
 }
 
 func pick(r *rand.Rand, xs ...int) int { return xs[r.Intn(len(xs))] }
